@@ -611,7 +611,7 @@ func (a *analysis) checkRecovery(x *verifkit.Exec) {
 		}
 	}
 	// R5: a fatal cause degrades the pipeline and is never recovered from
-	if fatalInjected != "" && !x.StepCapHit && x.W.SlowestAnswer() < 5*time.Second {
+	if fatalInjected != "" && !x.StepCapHit && x.W.SlowestBusyAnswer() < 5*time.Second {
 		for _, s := range sts {
 			if s.seq > fatalInjectedSeq && s.status == "Recovering" {
 				a.bad("C10/fatal-cause-recovered/"+p.Engine, "%s (event #%d), a fatal cause, but the pipeline went to Recovering (event #%d) instead of Degraded", fatalInjected, fatalInjectedSeq, s.seq)
@@ -699,7 +699,10 @@ func (a *analysis) checkRecovery(x *verifkit.Exec) {
 	}
 	// ... and the counterpart: recovery may only give up ("failed to recover ... after N attempts") when the retries
 	// made within the configured window really exhausted the budget - attempts made long ago do not count
-	if maxRetries > 0 && fatalInjected == "" && forceless(a.evs) && len(p.Ctl) == 0 && !x.StepCapHit {
+	// (the moment recovery gave up is only visible through the failure event that follows its status write: judged only
+	// when the store and the plugins answered promptly, otherwise a write the explorer kept pending for minutes of virtual
+	// time moves that event out of the window)
+	if maxRetries > 0 && fatalInjected == "" && forceless(a.evs) && len(p.Ctl) == 0 && !x.StepCapHit && x.W.SlowestBusyAnswer() < 5*time.Second {
 		for _, e := range a.evs {
 			if e.Comp == "lc" && e.Kind == "failure" && strings.Contains(e.Arg, "failed to recover pipeline") {
 				n := 0
@@ -717,7 +720,7 @@ func (a *analysis) checkRecovery(x *verifkit.Exec) {
 	}
 	// R7: a transient cause leads to an automatic restart: a run whose first failure is transient, with nobody stopping
 	// the pipeline, must not simply end stopped (no Recovering / Degraded status, no restart)
-	if transientSeq >= 0 && fatalInjected == "" && userStopSeq < 0 && shutdownSeq < 0 && forceless(a.evs) && len(p.Ctl) == 0 && !x.StepCapHit && x.W.SlowestAnswer() < 5*time.Second {
+	if transientSeq >= 0 && fatalInjected == "" && userStopSeq < 0 && shutdownSeq < 0 && forceless(a.evs) && len(p.Ctl) == 0 && !x.StepCapHit && x.W.SlowestBusyAnswer() < 5*time.Second {
 		handled := false
 		for _, s := range sts {
 			if s.seq > transientSeq && (s.status == "Recovering" || s.status == "Degraded") {
@@ -812,6 +815,26 @@ func (a *analysis) checkRecovery(x *verifkit.Exec) {
 
 // restartedBefore reports whether a source connector was opened between the two events (a restart reads the stored
 // configuration anew).
+// openedByTheRunItself reports whether the processor instance comp ("proc:<name>#k") is the FIRST instance of its
+// processor that the current run opened, and was opened only after the request was issued (event from): the node's own
+// initial Open read the configuration the request had already stored - a start, not the live reconfigure taking effect
+// (reachable when the request arrives while the node goroutine has not opened its processor yet).
+func openedByTheRunItself(evs []verifkit.Event, comp string, from int) bool {
+	name := strings.SplitN(comp, "#", 2)[0] + "#"
+	runStart := -1
+	for _, e := range evs {
+		if e.Comp == "ctl" && e.Kind == "call" && (e.Arg == "start" || strings.HasPrefix(e.Arg, "start#")) {
+			runStart = e.Seq
+		}
+	}
+	for _, e := range evs {
+		if e.Seq > runStart && strings.HasPrefix(e.Comp, name) && (e.Kind == "open" || e.Kind == "openfail") {
+			return e.Comp == comp && e.Seq > from
+		}
+	}
+	return false
+}
+
 func restartedBefore(evs []verifkit.Event, from, to int) bool {
 	for _, e := range evs {
 		if e.Seq > from && e.Seq < to && isSource(e.Comp) && e.Kind == "open" {
@@ -1278,7 +1301,7 @@ func (a *analysis) checkReconf(x *verifkit.Exec) {
 			case strings.HasPrefix(e.Comp, "proc:") && e.Kind == "in" && retSeq >= 0 && !okLater && !cancelled && len(a.p.Apply) == 0 && singleRequest == 1:
 				// (a run that was (re)started after the request was issued built its processor from what the request had
 				// already stored: that is a restart, not the live reconfigure taking effect)
-				if genNum(e.Arg) == req.gen && !restartedBefore(a.evs, callSeq, e.Seq) {
+				if genNum(e.Arg) == req.gen && !restartedBefore(a.evs, callSeq, e.Seq) && !openedByTheRunItself(a.evs, e.Comp, callSeq) {
 					a.bad("C13/failed-reconfigure-took-effect", "the reconfigure request %s returned an error (event #%d) and was not cancelled by its caller, but record %d was then processed by its configuration g%d (event #%d): the caller was told the old configuration keeps running", req.name, retSeq, e.Idx, req.gen, e.Seq)
 					retSeq = -2
 				}
